@@ -82,7 +82,7 @@ func (r *FeatureRemote) SetOperations(functions []model.FunctionPropertyType) {
 
 	r.operations = make(map[model.FunctionType]api.OperationsInterface)
 	for _, sf := range functions {
-		if sf.PossibleOperations == nil {
+		if sf.Function == nil || sf.PossibleOperations == nil {
 			continue
 		}
 		r.operations[*sf.Function] = NewOperations(
